@@ -166,6 +166,17 @@ func (p *Path) callValue(caller *frame, fv Value, args []Value, site ssa.Instruc
 	return nil
 }
 
+// externModels: body-less (assembly) functions replaced by byte-loop models of zzverif/sym.
+var externModels = map[string]string{
+	"internal/bytealg.IndexByteString": "ExtIndexByteString",
+	"internal/bytealg.IndexByte":       "ExtIndexByte",
+	"internal/bytealg.CountString":     "ExtCountString",
+	"internal/bytealg.Count":           "ExtCount",
+	"internal/bytealg.IndexString":     "ExtIndexString",
+	"internal/bytealg.Index":           "ExtIndex",
+	"internal/bytealg.Compare":         "ExtCompare",
+}
+
 func (p *Path) callFunction(caller *frame, fn *ssa.Function, args []Value, env []Value, site ssa.Instruction) Value {
 	if len(p.w.eng.redirects) > 0 {
 		if to, ok := p.w.eng.redirects[fn.String()]; ok {
@@ -189,6 +200,12 @@ func (p *Path) callFunction(caller *frame, fn *ssa.Function, args []Value, env [
 			fn.Pkg.Build()
 		}
 		if fn.Blocks == nil {
+			if m, ok := externModels[fn.String()]; ok {
+				if mf := p.w.eng.symPkg.Func(m); mf != nil {
+					p.w.eng.noteStub(fn.String() + " -> sym." + m)
+					return p.callFunction(caller, mf, args, nil, site)
+				}
+			}
 			unsupportedf("external function %s", fn)
 		}
 	}
